@@ -1,4 +1,5 @@
 import MementoModel.Lemmas.CacheLemmas
+import MementoModel.Lemmas.CacheRoom
 
 /-!
 # C06 — the memory cache is bounded, least-recently-used, and keeps honest accounts
@@ -161,6 +162,93 @@ theorem group_query_answer (ks : List Key) : ∀ s : State,
     congr 1
     unfold isMemoized
     split <;> simp_all
+
+end Memento.Cache
+
+/-! ## Backend level: "… keep being served without touching the underlying store"
+
+The filesystem backend of `Model/Store.lean` consults its cache first. These theorems are about that glue: the answer for a
+resident call does not depend on what the store holds (so the store is not consulted), and a look-up — which writes
+memento-only entries for the calls it had to fetch — leaves every resident entry exactly as it is while there is room. -/
+namespace Memento.Store.FsBackend
+open Memento
+
+/-- a resident entry with a value is read from the cache: the same answer whatever the store holds (`d'` arbitrary),
+    and the store is left as it is -/
+theorem read_hit_no_store_access (s : FsBackend) (c : Cache.State) (hc : s.cache = some c) (mem size : Nat) (wr : Bool)
+    (mi : MInfo) (hm : alookup s.heap mem = some mi) (e : Cache.Entry)
+    (he : Cache.lookup c.cache (ckey mi.fn mi.arg) = some e) (hv : e.hasValue = true) (d' : DS) :
+    (readResult { s with ds := d' } mem size wr).2 = some (objBytes e.val) ∧
+    (readResult s mem size wr).2 = some (objBytes e.val) ∧ (readResult s mem size wr).1.ds = s.ds := by
+  have hr := Cache.resident_hit_served c (ckey mi.fn mi.arg) e he hv
+  have hrr : Cache.readResult c (ckey mi.fn mi.arg) = ((Cache.readResult c (ckey mi.fn mi.arg)).1, .value e.val) := by
+    rw [← hr.1]
+  refine ⟨?_, ?_, ?_⟩ <;> (unfold readResult; simp only [hm, hc]; rw [hrr])
+
+theorem mergeMementos_all_cached (s : FsBackend) : ∀ (l : List ((Fn × Arg) × Option Nat)),
+    (∀ p ∈ l, p.2.isSome) → mergeMementos s l = (s, l.map (·.2)) := by
+  intro l
+  induction l with
+  | nil => intro _; rfl
+  | cons p l ih =>
+    intro h
+    obtain ⟨⟨fn, arg⟩, cached⟩ := p
+    cases cached with
+    | none => exact absurd (h _ List.mem_cons_self) (by simp)
+    | some m =>
+      simp only [mergeMementos, List.map_cons]
+      rw [ih (fun p hp => h p (List.mem_cons_of_mem _ hp))]
+
+/-- a look-up of calls that are all resident is answered from the cache: state unchanged, the same answer whatever the
+    store holds -/
+theorem lookup_hit_no_store_access (s : FsBackend) (c : Cache.State) (hc : s.cache = some c) (ks : List (Fn × Arg))
+    (hall : ∀ k ∈ ks, (Cache.lookup c.cache (ckey k.1 k.2)).isSome) (d' : DS) :
+    getMementos { s with ds := d' } ks =
+      ({ s with ds := d' }, ks.map (fun k => (Cache.lookup c.cache (ckey k.1 k.2)).map (·.mem))) := by
+  unfold getMementos
+  rw [mergeMementos_all_cached]
+  · simp only [List.map_map]
+    congr 1
+    apply List.map_congr_left
+    intro k _
+    simp only [Function.comp, cacheLookup, hc]
+  · intro p hp
+    obtain ⟨k, hk, rfl⟩ := List.mem_map.mp hp
+    simp only [cacheLookup, hc]
+    have := hall k hk
+    cases hl : Cache.lookup c.cache (ckey k.1 k.2) with
+    | none => rw [hl] at this; exact absurd this (by simp)
+    | some e => simp
+
+/-- a look-up of any group of calls (resident or not, memoized or not) leaves every resident entry — its value, its
+    memento, its size — exactly as it is, as long as there is room for the memento-only entries (16 bytes each) of the
+    calls it fetches; so a resident value stays servable from memory (`read_hit_no_store_access`) -/
+theorem lookup_keeps_resident_values {s : FsBackend} {c : Cache.State} (hc : s.cache = some c) (ks : List (Fn × Arg))
+    (hroom : c.usage + 16 * ks.length ≤ c.budget) (k : Cache.Key) (e : Cache.Entry)
+    (he : Cache.lookup c.cache k = some e) :
+    ∃ c', (getMementos s ks).1.cache = some c' ∧ Cache.lookup c'.cache k = some e := by
+  unfold getMementos
+  refine mergeMementos_keeps k e _ s c hc he ?_ (by simpa using hroom)
+  intro p hp hnone
+  obtain ⟨q, _, rfl⟩ := List.mem_map.mp hp
+  exact cacheLookup_none_ne hc he hnone
+
+/-- non-vacuity: after one memoize on a backend with a 1000-byte cache the call is resident with its value and there is
+    room for two more memento-only entries; a look-up of two other calls (one memoized beforehand by another backend object
+    on the same store would be fetched) leaves it resident -/
+private def demoB : FsBackend := (step (FsBackend.init false (some 1000)) (.memoize 1 1 none 7 (some 3) 40 false)).1
+
+example : (match demoB.cache with
+    | some c => (Cache.lookup c.cache (ckey 1 1)).any (·.hasValue) && decide (c.usage + 16 * 2 ≤ c.budget)
+    | none => false) = true := by decide +kernel
+
+example : (match (getMementos demoB [(2, 1), (1, 2)]).1.cache with
+    | some c => (Cache.lookup c.cache (ckey 1 1)).any (·.hasValue)
+    | none => false) = true := by decide +kernel
+
+end Memento.Store.FsBackend
+
+namespace Memento.Cache
 
 /-! ## Non-vacuity: concrete reachable states exercising the hypotheses -/
 
